@@ -108,12 +108,27 @@ func (c *Ctx) poolObject(fn *ssa.Function, get *ssa.Call, pool *ssa.Global, ord 
 					switch {
 					case recvObj && (name == "bytes.(Buffer).Bytes" || name == "bytes.(Buffer).Next" || name == "bytes.(Buffer).AvailableBuffer"):
 						mark(x)
-					case name == "bytes.NewReader" || name == "bytes.NewBuffer" || name == "bufio.NewReader" || name == "compress/zlib.NewReader" || name == "io.LimitReader" || name == "io.TeeReader":
-						for _, a := range cc.Args {
+					default:
+						// any call that receives the pooled object (or an alias) may hand an
+						// alias back in a composite result (reader wrappers, pb.Packet(), ...)
+						_ = name
+						args := cc.Args
+						if cc.IsInvoke() {
+							args = append([]ssa.Value{cc.Value}, args...)
+						}
+						for _, a := range args {
 							if derived[a] || isObj(a) {
 								mark(x)
 							}
 						}
+					}
+				case *ssa.FieldAddr:
+					if derived[x.X] || isObj(x.X) {
+						mark(x)
+					}
+				case *ssa.IndexAddr:
+					if derived[x.X] {
+						mark(x)
 					}
 				case *ssa.Extract:
 					if derived[x.Tuple] {
@@ -151,6 +166,9 @@ func (c *Ctx) poolObject(fn *ssa.Function, get *ssa.Call, pool *ssa.Global, ord 
 				case *ssa.UnOp:
 					if x.Op == token.MUL {
 						if al, ok := x.X.(*ssa.Alloc); ok && allocHolds[al] {
+							mark(x)
+						}
+						if derived[x.X] {
 							mark(x)
 						}
 					}
@@ -226,9 +244,15 @@ func (c *Ctx) poolObject(fn *ssa.Function, get *ssa.Call, pool *ssa.Global, ord 
 					s.put = true
 					continue
 				}
-				if !cc.IsInvoke() && len(cc.Args) > 0 && isObj(cc.Args[0]) && cc.StaticCallee() != nil && cc.StaticCallee().Name() == "Reset" {
-					s.fresh = false
-					continue
+				if !cc.IsInvoke() && len(cc.Args) > 0 && cc.StaticCallee() != nil && cc.StaticCallee().Name() == "Reset" {
+					recv := cc.Args[0]
+					if fa, ok := recv.(*ssa.FieldAddr); ok {
+						recv = fa.X
+					}
+					if isObj(recv) {
+						s.fresh = false
+						continue
+					}
 				}
 			case *ssa.Return, *ssa.Panic:
 				if s.got && !s.put {
@@ -237,7 +261,7 @@ func (c *Ctx) poolObject(fn *ssa.Function, get *ssa.Call, pool *ssa.Global, ord 
 					put.Pos = c.P.Pos(insn.Pos())
 				}
 				continue
-			case *ssa.TypeAssert, *ssa.DebugRef, *ssa.MakeInterface:
+			case *ssa.TypeAssert, *ssa.DebugRef, *ssa.MakeInterface, *ssa.FieldAddr:
 				continue
 			}
 			if s.got && s.fresh {
